@@ -21,7 +21,7 @@ from ropt.plugins import PluginManager
 ID = "C16"
 LEVEL = "exploration"
 RULE = (
-    "Hypothesis over configurations (1-2 samplers of every built-in method, shared or not, assigned per variable; "
+    "Hypothesis over configurations (1-2 samplers of every built-in method with default or explicit options (distribution parameters, unscrambled QMC), shared or not, assigned per variable; "
     "sort/cvar filters; mean/stddev estimators; masks; SLSQP or differential evolution with an explicit seed option; "
     "small budgets) and over histories: run A, then 1-3 interfering actions (reseeding NumPy's global generator, other "
     "runs that differ in seed / sampler / everything, reuse of the plug-in manager, of the context, of the plan and step "
@@ -39,6 +39,18 @@ ASSUMPTIONS = [
 ]
 
 STOCHASTIC = ["norm", "uniform", "truncnorm", "sobol", "halton", "lhs"]
+SAMPLER_OPTIONS: dict[str, list[dict[str, Any] | None]] = {
+    "norm": [None, None, {"loc": 0.5, "scale": 2.0}], "uniform": [None, None, {"loc": -0.5, "scale": 1.0}, {"scale": 4.0}],
+    "truncnorm": [None, None, {"a": -2.0, "b": 2.0}, {"b": 0.5}], "sobol": [None, None, {"scramble": False}],
+    "halton": [None, None, {"scramble": False}], "lhs": [None, None, {"scramble": False}, {"strength": 1}],
+}
+
+
+def seed_dependent(smp: list[Any]) -> bool:
+    """Unscrambled QMC sequences are (Sobol, Halton) or can be (LHS with one sample) deterministic: the seed need not matter."""
+    opts = smp[2] if len(smp) > 2 and smp[2] else {}  # noqa: PLR2004
+    return not (smp[0] in ("sobol", "halton", "lhs") and opts.get("scramble") is False)
+
 
 
 def build_config(spec: dict[str, Any]) -> dict[str, Any]:
@@ -48,7 +60,8 @@ def build_config(spec: dict[str, Any]) -> dict[str, Any]:
         "realizations": {"weights": spec["weights"]},
         "objectives": {"weights": [1.0] * spec["K"]},
         "gradient": {"number_of_perturbations": spec["P"], "perturbation_magnitudes": 0.05, "seed": spec["seed"]},
-        "samplers": [{"method": m, "shared": sh} for m, sh in spec["samplers"]],
+        "samplers": [{"method": smp[0], "shared": smp[1], **({"options": smp[2]} if len(smp) > 2 and smp[2] is not None else {})}  # noqa: PLR2004
+                     for smp in spec["samplers"]],
         "function_estimators": [{"method": spec["estimator"]}],
     }
     if spec["assign"] is not None:
@@ -199,7 +212,7 @@ def run_case(case: dict[str, Any]) -> dict[str, Any]:
             res = run_once(other, session, action["reuse"])
             interfering += 1
             if set(action["changes"]) == {"seed"} and action["changes"]["seed"] != spec["seed"] and first["first_pert"] is not None \
-                    and any(m in STOCHASTIC for m, _ in spec["samplers"]):
+                    and all(seed_dependent(smp) for smp in spec["samplers"]):
                 check(res["first_pert"] != first["first_pert"], "seed-ignored",
                       f"a run that differs only in the seed ({spec['seed']} -> {action['changes']['seed']}) used identical perturbations", case)
     second = run_once(spec, session, case["final_reuse"], inside=case.get("inside"))
@@ -221,6 +234,11 @@ def hypothesis_shard(item: dict[str, Any]) -> Collector:
     col = Collector(ID)
 
     @st.composite
+    def sampler(draw: Any, methods: list[str] = STOCHASTIC + ["sobol", "halton", "lhs"]) -> list[Any]:  # noqa: ANN401, B006
+        method = draw(st.sampled_from(methods))
+        return [method, draw(st.booleans()), draw(st.sampled_from(SAMPLER_OPTIONS[method]))]
+
+    @st.composite
     def specs(draw: Any) -> dict[str, Any]:  # noqa: ANN401
         n, r_n = draw(st.integers(1, 3)), draw(st.integers(1, 3))
         s_n = draw(st.integers(1, 2))
@@ -235,7 +253,7 @@ def hypothesis_shard(item: dict[str, Any]) -> Collector:
             mask = [True] + [draw(st.booleans()) for _ in range(n - 1)]
         return {"n": n, "K": 1, "P": draw(st.integers(1, 4)), "weights": [draw(st.sampled_from([1.0, 2.0])) for _ in range(r_n)],
                 "x0": [draw(st.sampled_from([0.0, 0.5, -0.5])) for _ in range(n)], "seed": draw(st.integers(0, 50)),
-                "samplers": [[draw(st.sampled_from(STOCHASTIC + ["sobol", "halton", "lhs"])), draw(st.booleans())] for _ in range(s_n)],
+                "samplers": [draw(sampler()) for _ in range(s_n)],
                 "assign": [draw(st.integers(0, s_n - 1)) for _ in range(n)] if s_n > 1 else None, "mask": mask, "filter": flt,
                 "estimator": estimator, "method": draw(st.sampled_from(["slsqp", "slsqp", "de"])), "de_seed": draw(st.integers(0, 20)),
                 "budget": draw(st.integers(2, 4)), "speculative": draw(st.booleans()),
@@ -254,7 +272,8 @@ def hypothesis_shard(item: dict[str, Any]) -> Collector:
             if what == "seed":
                 changes: dict[str, Any] = {"seed": spec["seed"] + draw(st.integers(1, 9))}
             elif what == "sampler":
-                changes = {"samplers": [[draw(st.sampled_from(STOCHASTIC)), draw(st.booleans())] for _ in spec["samplers"]],
+                # other samplers, or the same methods with other options
+                changes = {"samplers": [draw(sampler([smp[0]] if draw(st.booleans()) else STOCHASTIC)) for smp in spec["samplers"]],
                            "seed": draw(st.integers(0, 50))}
             else:
                 other = draw(specs())
@@ -264,18 +283,19 @@ def hypothesis_shard(item: dict[str, Any]) -> Collector:
         if draw(st.integers(0, 2)) == 0:  # an unrelated run with the same kind of samplers, executed from a callback of the second run of A
             inside = dict(spec)
             inside.update({"seed": spec["seed"] + 11, "x0": [v + 0.25 for v in spec["x0"]]})
-        qmc = {m for m, _ in spec["samplers"] if m in ("sobol", "halton", "lhs")}
+        qmc = {smp[0] for smp in spec["samplers"] if smp[0] in ("sobol", "halton", "lhs")}
         return {"A": spec, "actions": actions, "final_reuse": draw(st.sampled_from(["fresh", "manager", "context", "step"])),
                 # several different QMC engines share one generator: always compare with another interpreter (hash seed)
                 "fresh_process": len(qmc) > 1 or draw(st.integers(0, item["fresh_every"])) == 0, "inside": inside}
 
     def body(case: dict[str, Any]) -> None:
         info = run_case(case)
-        methods = {m for m, _ in case["A"]["samplers"]}
+        methods = {smp[0] for smp in case["A"]["samplers"]}
+        with_options = any(len(smp) > 2 and smp[2] for smp in case["A"]["samplers"])  # noqa: PLR2004
         col.case(case, nontrivial=info["grads"] >= 1 and info["interfering"] >= 1, classes=(
             f"optimizer={case['A']['method']}", *(f"sampler={m}" for m in sorted(methods)), f"final-reuse={case['final_reuse']}",
             "fresh-process-reference" if case["fresh_process"] else "in-process-only",
-            "interloper-inside-run" if case.get("inside") else "no-interloper", "gradients" if info["grads"] else "no-gradients",
+            "interloper-inside-run" if case.get("inside") else "no-interloper", "sampler-options" if with_options else "default-sampler-options", "gradients" if info["grads"] else "no-gradients",
             *(f"action={a['kind']}" + (":" + a["reuse"] if a["kind"] == "run" else "") for a in case["actions"])))
 
     run_hypothesis(col, cases(), body, seed=item["seed"], max_examples=item["examples"])
